@@ -209,9 +209,32 @@ func parseSafe(content string) (rs *ignorefiles.Ruleset, err error, panicked int
 	return
 }
 
+// RuleGen describes a generated rule file: expandFill(Kind, Bytes, Text)
+type RuleGen struct {
+	Kind  string `json:"kind"`
+	Bytes int    `json:"bytes"`
+	Text  string `json:"text"`
+}
+
+var bigRuleGens = []RuleGen{
+	{Kind: "rule-lines", Bytes: 1<<20 + 4096, Text: "*.bak\n@FILL@\nsecret.auto.tfvars\nprivate/\n!private/public.txt\n"},
+	straddlingRuleGen(),
+	{Kind: "long-line", Bytes: 70 << 10, Text: "*.bak\n@FILL@\nsecret.auto.tfvars\nprivate/\n"},
+}
+
+// the last rule begins six bytes before the end of the first MiB
+func straddlingRuleGen() RuleGen {
+	n := 1<<20 - 400
+	l := len(expandFill("rule-lines", n, ""))
+	pad := 1<<20 - 6 - l - 2
+	return RuleGen{Kind: "rule-lines", Bytes: n, Text: "@FILL@#" + strings.Repeat("p", pad) + "\n/top-only.txt\n"}
+}
+
+var bigRulePaths = []string{"secret.auto.tfvars", "private/key.pem", "private/", "private/public.txt", "main.tf", "old.bak", "sub/secret.auto.tfvars", "modules/child.tf", "zzfill-000000.tmp", "top-only.txt", "sub/top-only.txt"}
+
 func init() {
 	lanes["ignore"] = func(cfg *Config, rep *Report) {
-		rep.Rule = "rule files of 0..4 lines from a pattern grammar (23 atoms incl. *, ?, **, regexp metacharacters, non-ASCII, spaces) x anchoring x trailing slash x negation, with comments, blank, whitespace-only and '!' lines, CRLF; each against 12 paths of depth 1..5 over 22 segments (incl. newline, metacharacters), optional trailing slash; non-trivial = rule file has a negation, a '**', or a metacharacter atom; distinct by (rule file, paths)"
+		rep.Rule = "rule files of 0..4 lines from a pattern grammar (23 atoms incl. *, ?, **, regexp metacharacters, non-ASCII, spaces) x anchoring x trailing slash x negation, with comments, blank, whitespace-only and '!' lines, CRLF; each against 12 paths of depth 1..5 over 22 segments (incl. newline, metacharacters), optional trailing slash; plus three generated rule files judged by the segment-wise matcher only (two of about 1 MiB of short lines with the rules that matter at the end, one with a 70 KiB comment line); non-trivial = rule file has a negation, a '**', or a metacharacter atom; distinct by (rule file, paths)"
 		r := NewRng(cfg.Seed)
 		var reqs, impl []string
 		var human []interface{}
@@ -221,31 +244,56 @@ func init() {
 		for i, p := range probePaths {
 			baseline[i], _ = ignorefiles.DefaultRuleset.Excludes(p)
 		}
-		runOne := func(content string, paths []string, exotic bool) {
+		// gen != nil: the rule file is generated from a compact description (megabyte rule files): it is
+		// judged by the segment-wise matcher only (the Lean driver's string functions recurse per
+		// character) and reports record the description instead of the content
+		runOne := func(content string, paths []string, exotic bool, gen *RuleGen) {
 			rs, err, pan := parseSafe(content)
 			line := "ignore " + X(content)
+			if gen != nil {
+				line = fmt.Sprintf("ignore-gen %s %d %s", gen.Kind, gen.Bytes, X(gen.Text))
+			}
 			for _, p := range paths {
 				line += " " + X(p)
+			}
+			ruleIn := func(path string) map[string]interface{} {
+				in := map[string]interface{}{"rulefile": content}
+				if gen != nil {
+					in = map[string]interface{}{"rulefile_gen": gen}
+				}
+				if path != "" {
+					in["path"] = path
+				}
+				return in
 			}
 			nt := strings.Contains(content, "!") || strings.Contains(content, "**") || strings.ContainsAny(content, "+()$|^{}")
 			np := len(paths)
 			if np > 3 {
 				np = 3
 			}
-			sample := map[string]interface{}{"rulefile": content, "paths": paths[:np]}
+			sample := ruleIn("")
+			sample["paths"] = paths[:np]
 			// what a difference records: the rule file with every path of the request (enough to replay it)
-			full := map[string]interface{}{"rulefile": content, "paths": paths}
+			full := ruleIn("")
+			full["paths"] = paths
 			rep.Case(line, nt, sample)
 			if pan != nil {
 				rep.Count("outcome:parse-panic")
-				rep.AddOracle(OracleFailure{Property: "C19", Lane: "ignore", What: fmt.Sprintf("ParseIgnoreFileContent panics: %v", pan), Input: map[string]string{"rulefile": content}})
-				reqs = append(reqs, line)
-				impl = append(impl, "panic")
-				human = append(human, full)
+				rep.AddOracle(OracleFailure{Property: "C19", Lane: "ignore", What: fmt.Sprintf("ParseIgnoreFileContent panics: %v", pan), Input: ruleIn("")})
+				if gen == nil {
+					reqs = append(reqs, line)
+					impl = append(impl, "panic")
+					human = append(human, full)
+				}
 				return
 			}
 			if err != nil {
 				rep.Count("outcome:parse-error")
+				if gen != nil {
+					rep.Count("outcome:parse-error:" + gen.Kind)
+					// a rule file made of valid lines only must parse whatever the length of a line (F46, repaired)
+					rep.AddOracle(OracleFailure{Property: "C03", Lane: "ignore", What: "a rule file of valid lines is refused as a whole: " + err.Error(), Input: ruleIn("")})
+				}
 				return
 			}
 			rep.Count("outcome:parsed")
@@ -254,12 +302,12 @@ func init() {
 			for _, p := range paths {
 				res, _, pan := excludesSafe(rs, p)
 				if pan != nil {
-					rep.AddOracle(OracleFailure{Property: "C19", Lane: "ignore", What: fmt.Sprintf("Excludes panics: %v", pan), Input: map[string]string{"rulefile": content, "path": p}})
+					rep.AddOracle(OracleFailure{Property: "C19", Lane: "ignore", What: fmt.Sprintf("Excludes panics: %v", pan), Input: ruleIn(p)})
 					outs = append(outs, "panic")
 					continue
 				}
 				if inc, ierr := rs.Includes(p); ierr == nil && inc == res.Excluded {
-					rep.AddOracle(OracleFailure{Property: "C03", Lane: "ignore", What: fmt.Sprintf("Includes=%v and Excludes.Excluded=%v for the same path", inc, res.Excluded), Input: map[string]string{"rulefile": content, "path": p}})
+					rep.AddOracle(OracleFailure{Property: "C03", Lane: "ignore", What: fmt.Sprintf("Includes=%v and Excludes.Excluded=%v for the same path", inc, res.Excluded), Input: ruleIn(p)})
 				}
 				o := "f"
 				if res.Excluded {
@@ -272,7 +320,7 @@ func init() {
 				}
 				outs = append(outs, o)
 				if want := oExcluded(orules, p); !exotic && want != res.Excluded {
-					rep.AddOracle(OracleFailure{Property: "C03", Lane: "ignore", What: fmt.Sprintf("Excludes=%v but the segment-wise rule language says %v", res.Excluded, want), Input: map[string]string{"rulefile": content, "path": p}})
+					rep.AddOracle(OracleFailure{Property: "C03", Lane: "ignore", What: fmt.Sprintf("Excludes=%v but the segment-wise rule language says %v", res.Excluded, want), Input: ruleIn(p)})
 				}
 				if res.Excluded {
 					rep.Count("verdict:excluded")
@@ -280,7 +328,9 @@ func init() {
 					rep.Count("verdict:included")
 				}
 			}
-			if !exotic {
+			if gen != nil {
+				rep.Count("outcome:oracle-only:" + gen.Kind)
+			} else if !exotic {
 				reqs = append(reqs, line)
 				impl = append(impl, strings.Join(outs, " "))
 				human = append(human, full)
@@ -291,7 +341,7 @@ func init() {
 			for k, p := range probePaths {
 				now, _ := ignorefiles.DefaultRuleset.Excludes(p)
 				if now != baseline[k] {
-					rep.AddOracle(OracleFailure{Property: "C16", Lane: "ignore", What: fmt.Sprintf("DefaultRuleset.Excludes(%q) changed from %v to %v after parsing a rule file", p, baseline[k], now), Input: map[string]string{"rulefile": content}})
+					rep.AddOracle(OracleFailure{Property: "C16", Lane: "ignore", What: fmt.Sprintf("DefaultRuleset.Excludes(%q) changed from %v to %v after parsing a rule file", p, baseline[k], now), Input: ruleIn("")})
 					baseline[k] = now
 				}
 			}
@@ -300,11 +350,16 @@ func init() {
 		// built-in probe paths if the record names none) goes first
 		{
 			var rin struct {
-				Rulefile *string  `json:"rulefile"`
-				Path     *string  `json:"path"`
-				Paths    []string `json:"paths"`
+				Rulefile    *string  `json:"rulefile"`
+				RulefileGen *RuleGen `json:"rulefile_gen"`
+				Path        *string  `json:"path"`
+				Paths       []string `json:"paths"`
 			}
-			if loadReplayInput(cfg, "ignore", &rin) && rin.Rulefile != nil {
+			if loadReplayInput(cfg, "ignore", &rin) && rin.RulefileGen != nil && rin.Rulefile == nil {
+				content := expandFill(rin.RulefileGen.Kind, rin.RulefileGen.Bytes, rin.RulefileGen.Text)
+				rin.Rulefile = &content
+			}
+			if rin.Rulefile != nil {
 				var paths []string
 				if rin.Path != nil {
 					paths = append(paths, *rin.Path)
@@ -316,11 +371,19 @@ func init() {
 				s0 := len(reqs)
 				rep.BeginReplay()
 				// patterns with brackets or backslashes are outside the modelled fragment (as in the generator)
-				runOne(*rin.Rulefile, paths, strings.ContainsAny(*rin.Rulefile, "[]\\"))
+				runOne(*rin.Rulefile, paths, strings.ContainsAny(*rin.Rulefile, "[]\\"), rin.RulefileGen)
 				rep.EndReplay(reqs[s0:]...)
 			} else {
 				replayMissing(cfg, rep, "ignore")
 			}
+		}
+		// oracle-only corpus: a rule file of a bit more than 1 MiB of short valid lines with the exclusions
+		// that matter at its end (seed C10-f: rules beyond the first MiB silently dropped), and one with a
+		// comment line beyond bufio.Scanner's 64 KiB token limit (refused as a whole by the unchanged code:
+		// "token too long"; were it accepted, every rule of it would have to count)
+		for _, g := range bigRuleGens {
+			g := g
+			runOne(expandFill(g.Kind, g.Bytes, g.Text), bigRulePaths, false, &g)
 		}
 		for i := 0; i < cfg.N; i++ {
 			content := genRuleFile(r)
@@ -341,7 +404,7 @@ func init() {
 				exotic = true
 				content = r.Pick([]string{"[ab]\n", "a[\n", "a]\n", "\\*\n", "foo\\\n", "\\\n", "[\n", "a\\b/c\n", "*.[ch]\n!x\\\n", "[!a]\n", "[^a]*\n", "{a,b}[\n"}) + content
 			}
-			runOne(content, paths, exotic)
+			runOne(content, paths, exotic, nil)
 		}
 		// the model answers "unsupported" for rule files outside its fragment; those cases are judged by
 		// the oracle only (the generator produces none, so any such answer is reported as a difference)
